@@ -301,7 +301,8 @@ def check(pid, tier, seed):
     ctx.selftest = None
     ctx.trace_stages = []
     ctx.extra = {}
-    ctx.env = {"VH_BIN_DIR": lib.BIN_DIR, "VH_TIER": tier, "VH_JOBS": str(ctx.cfg.get("jobs", 8))}
+    ctx.env = {"VH_BIN_DIR": lib.BIN_DIR, "VH_HOOKED_BIN_DIR": os.path.join(lib.BUILD, "repo-target-verif", "debug"),
+               "VH_TIER": tier, "VH_JOBS": str(ctx.cfg.get("jobs", 8))}
     lib.build()
     ctx.wd = lib.workdir(pid + ".run")
     try:
@@ -352,7 +353,7 @@ def replay(pid, path):
     case = json.load(open(path))
     wd = lib.workdir(pid + ".replay")
     vh = case.get("vh", pid)
-    env = {"VH_BIN_DIR": lib.BIN_DIR, "VH_JOBS": "1"}
+    env = {"VH_BIN_DIR": lib.BIN_DIR, "VH_HOOKED_BIN_DIR": os.path.join(lib.BUILD, "repo-target-verif", "debug"), "VH_JOBS": "1"}
     inp = os.path.join(wd, "in.json")
     json.dump({"in": case["input"]}, open(inp, "w"))
     rc, out, _ = lib.run([lib.VH, "run", vh, inp], timeout=600, env=env)
